@@ -501,5 +501,17 @@ Theorem collapse_edge_keeps_third_property_vertex :
 Proof. exact collapse_prop_third. Qed.
 Print Assumptions collapse_edge_keeps_third_property_vertex.
 
+(* The complementary branch of the same rule (second witness, corpus-crossing-edges-shared-prop): a halfedge whose
+   property vertex at the removed vertex EQUALS startProp0 is re-pointed to endProp0 whatever face its triangle
+   belongs to.  In the witness two coincident crossing vertices at (0.1875,0.1875,1) are merged by a short-edge
+   collapse; tri0/tri1 lie in face 102, the triangles of face 101 share property vertex 9 (value 2) with face 102 at
+   the removed vertex (the two faces agree there) and are re-pointed to face 102's property vertex 17 (value
+   -2.0625) of the kept vertex, where the faces do not agree.  Both symptoms have one cause: the rule identifies
+   "same face" with "same property-vertex index at startVert". *)
+Theorem collapse_edge_repoints_by_index :
+  forall sp0 ep0 sp1 ep1 p, p = sp0 -> collapse_prop sp0 ep0 sp1 ep1 p = ep0.
+Proof. exact collapse_prop_by_index. Qed.
+Print Assumptions collapse_edge_repoints_by_index.
+
 Example collapse_edge_witness : collapse_prop 2 6 11 10 8 = 8 /\ collapse_prop 2 6 11 10 2 = 6 /\ collapse_prop 2 6 11 10 11 = 10.
 Proof. repeat split; reflexivity. Qed.
